@@ -25,8 +25,9 @@ Put ==   /\ Ev.e = "put" /\ Ev.n > 0
          /\ put' = put + Ev.n /\ UNCHANGED <<got, size>>
          /\ stats' = [stats EXCEPT !.bytes = @ + Ev.n]
 \* the consumer can only have obtained bytes the producer had already handed over, they
-\* are the next bytes of the stream (ok), and the lag never exceeds the ring plus the one
-\* call in flight on the producer side
+\* are the next bytes of the stream (ok), and the lag never exceeds the ring plus one call
+\* in flight on each side (a put is logged before its call, a got after its call; calls
+\* move at most 8192 bytes)
 Got ==   /\ Ev.e = "got"
          /\ Ev.ok = TRUE
          /\ got + Ev.n <= put
@@ -37,7 +38,7 @@ Next == l <= Len(Trace) /\ l' = l + 1 /\ (Reset \/ Put \/ Got)
 Spec == Init /\ [][Next]_vars
 
 PrefixInv == got <= put
-LagInv == put - got <= size + 8192
+LagInv == put - got <= size + 2 * 8192
 Accepted == TLCGet("stats").diameter - 1 = Len(Trace)
 Report == l <= Len(Trace) \/ PrintT(ToJson([report |-> stats, events |-> Len(Trace)]))
 =============================================================================
